@@ -17,15 +17,25 @@
 (*   models/workflow.py  Workflow.create       -> Creates <=> Valid        *)
 (*                                                                         *)
 (* A graph is the LIST of top-level stages handed to Workflow.create: a    *)
-(* sequence of [ref, reqs] with reqs an arbitrary set of refs, so duplicate*)
-(* refs, self edges, unknown refs and cycles all occur.  List order matters*)
-(* only for WHICH defect the validator names first (ErrKind).              *)
+(* sequence of [ref, reqs, join] with reqs an arbitrary set of refs, so    *)
+(* duplicate refs, self edges, unknown refs and cycles all occur.  List    *)
+(* order matters only for WHICH defect the validator names first (ErrKind).*)
+(*                                                                         *)
+(* `join` is the stage's join type (how it waits for its upstreams AT RUN  *)
+(* TIME: AND / OR / DISCRIMINATOR / N_OF_M / MULTI_MERGE).  It is carried  *)
+(* as a dimension of the enumerated inputs and handed to the real          *)
+(* StageExecution, but NO definition below reads it: whether a graph is    *)
+(* valid, and what "after all of its dependencies" means, is a matter of   *)
+(* the edges alone.  (A join that fires on its first upstream still        *)
+(* depends on all of them; an order or a cycle check that looks at the     *)
+(* join type is wrong.)                                                    *)
 (***************************************************************************)
 EXTENDS Naturals, Sequences, FiniteSets
 
 CONSTANTS Refs        \* the reference alphabet
 
-Stage == [ref : Refs, reqs : SUBSET Refs]
+JoinTypes == {"AND", "OR", "DISCRIMINATOR", "N_OF_M", "MULTI_MERGE"}
+Stage == [ref : Refs, reqs : SUBSET Refs, join : JoinTypes]
 
 Idx(g)    == 1..Len(g)
 RefsOf(g) == {g[i].ref : i \in Idx(g)}
